@@ -108,7 +108,9 @@ class Builder:
         elif k == "vmap":
             callee = self.build(G["callee"])
             assert self.kind(G["callee"]) in ("dist", "fn")
-            if G.get("kwarg"):
+            if G.get("intaxes"):
+                out = callee.vmap()                                            # default in_axes: the bare int 0
+            elif G.get("kwarg"):
                 out = callee.vmap(in_axes=(0,))                                # the argument travels as a keyword (shared by the lanes)
             else:
                 out = callee.vmap(in_axes=(0, None if G["bcast"] else 0))
